@@ -164,9 +164,35 @@ RULES = [
      lambda f: f.st == 'ast-diff' and f.has('CreateCast') and 'code.code' in f.diff),
     ('ddl-migration-onto-initial-parent',
      lambda f: f.st == 'ast-diff' and f.has('CreateMigration') and re.search(r'\.parent: None != ', f.diff)),
+    # only the UNTYPED `x { using (e) }` -> `x := (e)` normalisation; a typed one losing its block is a regression
     ('ddl-computable-using-block-normalised',
      lambda f: f.st == 'ast-diff' and re.search(r'commands: length 1 != 0', f.diff)
-     and f.has('CreateGlobal', 'CreateConcreteProperty', 'CreateConcreteLink', 'CreateConcreteUnknownPointer', 'CreateAlias')),
+     and any(type(n).__name__ in ('CreateGlobal', 'CreateConcreteProperty', 'CreateConcreteLink',
+                                  'CreateConcreteUnknownPointer', 'CreateAlias')
+             and len(n.commands) == 1 and isinstance(n.commands[0], f.ql.SetField) and n.commands[0].name == 'expr'
+             and not isinstance(getattr(n, 'target', None), f.ql.TypeExpr) for n in f.nodes)
+     and not any(type(n).__name__ in ('CreateGlobal', 'CreateConcreteProperty', 'CreateConcreteLink',
+                                      'CreateConcreteUnknownPointer')
+                 and len(n.commands) == 1 and isinstance(getattr(n, 'target', None), f.ql.TypeExpr) for n in f.nodes)),
+    ('ddl-operator-two-using-clauses-garbled',
+     lambda f: f.has('CreateOperator') and f.st in ('reparse-fail', 'ast-diff')
+     and len(re.findall(r'(?i)using sql', f.p1)) >= 2),
+    ('ddl-function-two-using-clauses-one-dropped',
+     lambda f: f.has('CreateFunction') and (
+         f.st == 'ast-diff' and re.search(r'(code\.(code|from_expr|from_function)|nativecode): ', f.diff)
+         or f.st == 'reparse-fail' and 'USING FUNCTION clause' in f.err)),
+    ('ddl-empty-block-printed-as-nothing',
+     lambda f: f.st == 'reparse-fail' and re.search(r"Unexpected ';'", f.err)
+     and any(isinstance(n, (f.ql.AlterObject, f.ql.CreateAlias)) and not n.commands for n in f.nodes)),
+    ('ddl-index-named-idx-dropped',
+     lambda f: f.st == 'ast-diff' and re.search(r"name\.module: None != '__'", f.diff)
+     and f.has('CreateConcreteIndex', 'AlterConcreteIndex', 'DropConcreteIndex')),
+    ('ddl-abstract-operator-commands-dropped',
+     lambda f: f.st == 'ast-diff' and re.search(r'commands: length \d+ != 0', f.diff)
+     and any(isinstance(n, f.ql.CreateOperator) and n.abstract and n.commands for n in f.nodes)),
+    ('sdl-abstract-constraint-short-form-drops-on',
+     lambda f: f.st == 'ast-diff' and re.search(r'subjectexpr: .* != None', f.diff) and f.has('CreateConstraint')
+     and f.entry == 'sdl'),
     ('ddl-drop-branch-force-dropped',
      lambda f: f.st == 'ast-diff' and f.has('DropDatabase', 'AlterDatabase') and re.search(r'\.force: True != False', f.diff)),
     ('ddl-ext-package-migration-to-version-keyword',
@@ -545,6 +571,40 @@ def run(ctx: core.Ctx):
         col.text(origin, entry, text)
     ctx.log(f'literals / identifiers / templates done; totals {dict(col.hist)}')
 
+    # (ii-c') DDL / SDL matrix derived from the printer's decision points (c01_ddl): the core part always, the
+    #         extended part (qualifiers x everything, two-command bodies) sliced by seed in the quick tier
+    from . import c01_ddl
+    matrix = c01_ddl.build()
+    seen_txt = set()
+    n_core = n_ext = 0
+    ext_i = 0
+    for tier, entry, text in matrix:
+        if text in seen_txt:
+            continue
+        seen_txt.add(text)
+        if tier == 'ext':
+            ext_i += 1
+            if ctx.quick() and ext_i % 40 != ctx.seed % 40:
+                continue
+            n_ext += 1
+        else:
+            n_core += 1
+        col.text(f'ddl:{tier}', entry, text,
+                 modes=[SDL_MODES[0]] if entry == 'sdl' else [BLOCK_MODES[0]] if ctx.quick() else None)
+    ctx.log(f'DDL/SDL matrix: {n_core} core + {n_ext} extended texts (of {len(seen_txt)}); totals {dict(col.hist)}')
+
+    # (ii-c'') upstream seeds with ONE command block reduced to exactly one / two of its commands (text level)
+    seed_texts = [(e, t) for _o, e, t in corp if '{' in t and len(t) < 6000]
+    if ctx.quick():
+        seed_texts = [st for i, st in enumerate(seed_texts) if i % 3 == ctx.seed % 3]
+    n_sub = 0
+    for (entry, text), lx in zip(seed_texts, rt.safe_lex_many([t for _e, t in seed_texts])):
+        for v in pop.block_subsets(rng, text, lx, max_variants=3, all_single=not ctx.quick()):
+            n_sub += 1
+            col.text('subset:', entry, v,
+                     modes=[SDL_MODES[0]] if entry == 'sdl' else [BLOCK_MODES[0]] if ctx.quick() else None)
+    ctx.log(f'command-block subsets of upstream seeds: {n_sub} texts; totals {dict(col.hist)}')
+
     # (ii-d) corpus mutants (tokens) and grafts (expressions) ----------------------------
     n_mut = ctx.budget(900, 30000)
     sample = [rng.choice(bases) for _ in range(n_mut)]
@@ -610,6 +670,7 @@ def run(ctx: core.Ctx):
         'texts_tried': col.n_texts,
         'texts_rejected_by_parser': dict(col.rejected),
         'regression_corpus_texts': n_reg,
+        'ddl_matrix': {'core_texts': n_core, 'extended_texts_run': n_ext, 'matrix_size': len(seen_txt)},
         'open_finding_witness_texts': n_wit,
         'open_finding_witness_outcomes': dict(wcol.hist),
         'open_finding_witness_families': dict(wfam),
